@@ -169,6 +169,11 @@ def sonify_bundle(me, rng):
         (s.clicks, (t, 2000), dict(length=900)),
         (s.time_frequency, (gram, np.array([220.0, 440.0, 660.0]), np.arange(4) * 0.05, 2000), dict(length=500)),
         (s.pitch_contour, (np.arange(5) * 0.05, np.array([220.0, 230.0, 0.0, -200.0, 210.0]), 2000), dict(length=600)),
+        (s.pitch_contour, (np.arange(6) * 0.05, np.array([220.0, np.nan, np.nan, 230.0, np.inf, 210.0]), 2000), dict(length=600)),
+        (s.time_frequency, (gram, np.array([220.0, 440.0, 660.0]), np.arange(4) * 0.05, 2000), dict(length=500, function=np.cos)),
+        (s.time_frequency, (gram, np.array([220.0, 440.0, 660.0]), np.arange(4) * 0.05, 2000), dict(length=500, function=np.sign)),
+        (s.time_frequency, (gram, np.array([220.0, 440.0, 660.0]), np.arange(4) * 0.05, 2000), dict(length=500)),
+        (s.chroma, (np.abs(np.random.RandomState(3).randn(12, 3)), np.arange(3) * 0.05, 2000), dict(length=400, function=np.cos)),
         (s.chroma, (np.abs(np.random.RandomState(3).randn(12, 3)), np.arange(3) * 0.05, 2000), dict(length=400)),
         (s.chords, (["C:maj", "N"], iv, 2000), dict(length=600)),
     ]
@@ -360,6 +365,25 @@ def run(tier, seed):
                                 "pre": [], "post": [], "key": interner_k(key), "out": interner_o(digest(out)), "n": 1})
             if A is None:
                 continue
+    # the same idea for sonify: the same synthesis calls in every order, each order on freshly imported state
+    import itertools
+    gram0 = np.abs(np.random.RandomState(seed + 5).randn(3, 4))
+    variants = [("sin", {}), ("cos", {"function": np.cos}), ("sign", {"function": np.sign})]
+    for order in itertools.permutations(range(3)):
+        m2 = import_mir_eval()
+        for vi in order:
+            nm, kwv = variants[vi]
+            for fname, args in (("time_frequency", (gram0.copy(), np.array([220.0, 440.0, 660.0]), np.arange(4) * 0.05, 2000)),
+                                ("chroma", (np.abs(np.random.RandomState(3).randn(12, 3)), np.arange(3) * 0.05, 2000))):
+                try:
+                    out = ("ret", getattr(m2.sonify, fname)(*args, length=500, **kwv))
+                except Exception as ex:  # noqa
+                    out = ("exc", type(ex).__name__)
+                key = hashlib.md5(("fresh-sonify:" + fname + nm).encode()).digest()
+                fresh += 1
+                records.append({"fn": "sonify." + fname, "names": [], "_desc": {"order": str([variants[i][0] for i in order]), "function": nm,
+                                                                              "->": repr(out[1])[:120]},
+                                "pre": [], "post": [], "key": interner_k(key), "out": interner_o(digest(out)), "n": 1})
     me = import_mir_eval()
     groups = {}
     for idx, r in enumerate(records):
